@@ -73,6 +73,49 @@ func obligScriptSliced(u *Unit, o *Oblig) (string, bool) {
 	return s.String(), true
 }
 
+// obligScriptTagSliced drops the loop-invariant assumptions that carry property tags none of
+// which is a tag of this obligation (an invariant written for another property). Dropping
+// assumptions is sound for proving; only "unsat" answers of this query are used.
+func obligScriptTagSliced(u *Unit, o *Oblig) (string, bool) {
+	if len(u.AssumeTags) == 0 {
+		return "", false
+	}
+	mine := map[string]bool{}
+	for _, t := range o.Tags {
+		mine[t] = true
+	}
+	pcs := map[*Term]bool{}
+	for _, c := range conj(o.PC) {
+		pcs[c] = true
+	}
+	s := newScript("ALL")
+	dropped := 0
+	for _, a := range u.Assumes[:o.NAssume] {
+		if guardContradicts(a, pcs) {
+			continue
+		}
+		if tags := u.AssumeTags[a]; len(tags) > 0 {
+			keep := false
+			for _, t := range tags {
+				if mine[t] {
+					keep = true
+				}
+			}
+			if !keep {
+				dropped++
+				continue
+			}
+		}
+		s.Assert(a)
+	}
+	if dropped == 0 {
+		return "", false
+	}
+	s.Assert(mkNot(mkImp(o.PC, o.Goal)))
+	s.Raw("(check-sat)")
+	return s.String(), true
+}
+
 // guardContradicts: the guard of assumption a contains a conjunct whose negation is a
 // conjunct of the obligation's path condition: the assumption is vacuous on this path and
 // can be dropped without losing anything.
@@ -197,7 +240,7 @@ func runSolver(ctx context.Context, sd solverDef, script string, ms int, cfg *So
 }
 
 // discharge decides one obligation.
-func discharge(u *Unit, o *Oblig, script string, sliced string, cfg *SolverCfg) {
+func discharge(u *Unit, o *Oblig, script string, sliced string, tagSliced string, cfg *SolverCfg) {
 	if o.Trivial || o.Result == "violated" {
 		return // decided during generation (simplifier / kind pass)
 	}
@@ -255,17 +298,34 @@ func discharge(u *Unit, o *Oblig, script string, sliced string, cfg *SolverCfg) 
 	}
 	cctx, cancel := context.WithCancel(ctx)
 	defer cancel()
-	ch := make(chan ans, len(solvers))
+	ch := make(chan ans, len(solvers)+2)
+	racers := 0
 	for _, sd := range solvers {
 		sd := sd
+		racers++
 		go func() {
 			r, ot, _ := runSolver(cctx, sd, script, cfg.FullMs, cfg, false)
 			ch <- ans{r, ot, sd.name}
 		}()
 	}
+	if tagSliced != "" {
+		// the same goal without the loop invariants written for other properties: only a
+		// proof counts (fewer assumptions), never a model
+		for _, sd := range []solverDef{solvers[0], solvers[2]} {
+			sd := sd
+			racers++
+			go func() {
+				r, ot, _ := runSolver(cctx, sd, tagSliced, cfg.FullMs, cfg, false)
+				if r != "unsat" {
+					r = "unknown"
+				}
+				ch <- ans{r, ot, sd.name + "/own-tags"}
+			}()
+		}
+	}
 	final := ans{res: "unknown"}
 	var errs []string
-	for range solvers {
+	for i := 0; i < racers; i++ {
 		a := <-ch
 		if a.res == "unsat" {
 			final = a
@@ -282,7 +342,18 @@ func discharge(u *Unit, o *Oblig, script string, sliced string, cfg *SolverCfg) 
 	if final.res == "unknown" {
 		// last chance, sequentially and with twice the budget (a race of four solvers on a busy
 		// machine can starve all of them)
+		if tagSliced != "" {
+			for _, sd := range []solverDef{solvers[2], solvers[0]} {
+				if r, ot, _ := runSolver(ctx, sd, tagSliced, cfg.FullMs, cfg, false); r == "unsat" {
+					final = ans{r, ot, sd.name + "/own-tags/retry"}
+					break
+				}
+			}
+		}
 		for _, sd := range []solverDef{solvers[2], solvers[0]} {
+			if final.res == "unsat" {
+				break
+			}
 			r, ot, _ := runSolver(ctx, sd, script, cfg.FullMs, cfg, false)
 			if r == "unsat" || r == "sat" {
 				final = ans{r, ot, sd.name + "/retry"}
@@ -374,12 +445,16 @@ func dischargeAll(units []*Unit, cfg *SolverCfg, filter func(o *Oblig) bool) {
 			if !o.Cover {
 				sliced, _ = obligScriptSliced(u, o)
 			}
+			tagSliced := ""
+			if !o.Cover && !o.Short {
+				tagSliced, _ = obligScriptTagSliced(u, o)
+			}
 			u, o := u, o
 			wg.Add(1)
 			go func() {
 				defer wg.Done()
 				defer func() { <-sem }()
-				discharge(u, o, script, sliced, cfg)
+				discharge(u, o, script, sliced, tagSliced, cfg)
 			}()
 		}
 	}
